@@ -18,6 +18,7 @@ REQUIRED_COUNTERS = ["c07_ffsp_multistart_rows", "episodes", "c07_schedules_chec
 MIN_NONTRIVIAL = {"quick": 3000, "thorough": 30000}
 WORKERS = {"quick": 12, "thorough": 16}
 BUDGET_S = {"quick": 400, "thorough": 3000}
+THOROUGH_ROUNDS = 4
 
 
 def cases(tier, seed):
